@@ -1,0 +1,7 @@
+//go:build !verif
+
+package runner
+
+// verifYield is a scheduling perturbation point of the verification harness;
+// it does nothing in normal builds (see sched_verif.go).
+func verifYield(point string) {}
